@@ -1,5 +1,6 @@
 import copy
 from dataclasses import dataclass
+from decimal import Decimal
 from typing import Any, Optional, Tuple, Union
 
 from vtlengine import AST
@@ -70,11 +71,10 @@ def _handle_literal(value: Union[str, int, float, bool]):
     elif isinstance(value, bool):
         return "true" if value else "false"
     elif isinstance(value, float):
-        decimal = str(value).split(".")[1]
-        if len(decimal) > 4:
-            return f"{value:f}".rstrip("0")
-        else:
-            return f"{value:g}"
+        # Every digit, in plain decimal notation (the grammar has no exponent form), and always
+        # with a decimal point: "1.0" must stay a Number literal, not become the Integer "1".
+        text = format(Decimal(repr(value)), "f")
+        return text if "." in text else f"{text}.0"
     return str(value)
 
 
